@@ -21,6 +21,12 @@ func (group *Group) AddRtmpPushSession(url string, session *rtmp.PushSession) {
 	group.mutex.Lock()
 	defer group.mutex.Unlock()
 	if group.url2PushProxy != nil {
+		// 转推建连期间发布者已经离开，此时不能再挂载，否则这个转推session会一直留在没有输入的group上
+		if group.rtmpPubSession == nil && group.rtspPubSession == nil {
+			Log.Warnf("[%s] [%s] relay push established but publisher has gone, dispose it.", group.UniqueKey, session.UniqueKey())
+			session.Dispose()
+			return
+		}
 		group.url2PushProxy[url].pushSession = session
 	}
 }
